@@ -126,4 +126,72 @@ def fmtX4 (n : Nat) : String := hex4 n
 /-- fuel handed to every translated loop -/
 def loopFuel (d : Bytes) : Nat := d.length + 1
 
+/-! ## additions for Goflow/Generated/NumbersT.lean -/
+
+/-- what an `out interface{}` parameter of DecodeUNumber / WriteUDecoded points to: one of the four unsigned
+    widths the type switch knows, or anything else. The translated function returns the cell after the call. -/
+inductive Cell where
+  | u8 (v : UInt8) | u16 (v : UInt16) | u32 (v : UInt32) | u64 (v : UInt64) | other
+  deriving DecidableEq, Repr
+
+def Cell.toNat : Cell → Nat
+  | .u8 v => v.toNat | .u16 v => v.toNat | .u32 v => v.toNat | .u64 v => v.toNat | .other => 0
+
+/-- a zeroed destination of `bits` bits -/
+def Cell.zero : Nat → Cell
+  | 8 => .u8 0 | 16 => .u16 0 | 32 => .u32 0 | 64 => .u64 0 | _ => .other
+
+/-- `return err` of a function writing through `out` -/
+def retCell (c : Cell) (err : Error) : Res Cell :=
+  match err with
+  | none => .ok c
+  | some e => .error e
+
+/-- `binary.LittleEndian.UintNN(b)`: panics when b is too short, reads the first bytes -/
+def leU16 (b : Bytes) : Res UInt16 :=
+  if 2 ≤ b.length then .ok (UInt16.ofNat (leNat (b.take 2))) else .error .panic
+def leU32 (b : Bytes) : Res UInt32 :=
+  if 4 ≤ b.length then .ok (UInt32.ofNat (leNat (b.take 4))) else .error .panic
+def leU64 (b : Bytes) : Res UInt64 :=
+  if 8 ≤ b.length then .ok (UInt64.ofNat (leNat (b.take 8))) else .error .panic
+
+/-- `binary.BigEndian.PutUintNN(b, v)`: panics when b is too short, overwrites the first bytes -/
+def putU16 (b : Bytes) (v : UInt16) : Res Bytes :=
+  if 2 ≤ b.length then .ok (encBE 2 v.toNat ++ b.drop 2) else .error .panic
+def putU32 (b : Bytes) (v : UInt32) : Res Bytes :=
+  if 4 ≤ b.length then .ok (encBE 4 v.toNat ++ b.drop 4) else .error .panic
+def putU64 (b : Bytes) (v : UInt64) : Res Bytes :=
+  if 8 ≤ b.length then .ok (encBE 8 v.toNat ++ b.drop 8) else .error .panic
+
+/-- `make([]byte, n)` -/
+def makeBytes (n : Nat) : Res Bytes := .ok (List.replicate n 0)
+/-- `copy(dst, src)`: min(len(dst), len(src)) bytes; the value is the new content of dst -/
+def copyBytes (dst src : Bytes) : Bytes := src.take dst.length ++ dst.drop src.length
+/-- `d[i] = v` on a slice nothing else refers to -/
+def setIdx (d : Bytes) (i : Nat) (v : UInt8) : Res Bytes :=
+  if i < d.length then .ok (d.set i v) else .error .panic
+
+/-! ### the `Int` flavour: Go `int` as a signed integer (used where the Go code subtracts or may go negative).
+    `/` and `%` are `Int.tdiv` / `Int.tmod` (Go truncates toward zero). 64-bit overflow is not modelled. -/
+
+def idxI (d : Bytes) (i : Int) : Res UInt8 := if i < 0 then .error .panic else idx d i.toNat
+def setIdxI (d : Bytes) (i : Int) (v : UInt8) : Res Bytes := if i < 0 then .error .panic else setIdx d i.toNat v
+def sliceI (d : Bytes) (a b : Int) : Res Bytes :=
+  if a < 0 ∨ b < 0 then .error .panic else slice d a.toNat b.toNat
+def sliceFromI (d : Bytes) (a : Int) : Res Bytes := if a < 0 then .error .panic else sliceFrom d a.toNat
+def sliceToI (d : Bytes) (b : Int) : Res Bytes := if b < 0 then .error .panic else sliceTo d b.toNat
+def makeBytesI (n : Int) : Res Bytes := if n < 0 then .error .panic else .ok (List.replicate n.toNat 0)
+def divIntI (a b : Int) : Res Int := if b = 0 then .error .panic else .ok (Int.tdiv a b)
+def modIntI (a b : Int) : Res Int := if b = 0 then .error .panic else .ok (Int.tmod a b)
+
+/-- `x << n`, `x >> n` with a signed count: a negative count panics -/
+def shl8I (x : UInt8) (n : Int) : Res UInt8 := if n < 0 then .error .panic else .ok (shl8 x n.toNat)
+def shr8I (x : UInt8) (n : Int) : Res UInt8 := if n < 0 then .error .panic else .ok (shr8 x n.toNat)
+def shl16I (x : UInt16) (n : Int) : Res UInt16 := if n < 0 then .error .panic else .ok (shl16 x n.toNat)
+def shr16I (x : UInt16) (n : Int) : Res UInt16 := if n < 0 then .error .panic else .ok (shr16 x n.toNat)
+def shl32I (x : UInt32) (n : Int) : Res UInt32 := if n < 0 then .error .panic else .ok (shl32 x n.toNat)
+def shr32I (x : UInt32) (n : Int) : Res UInt32 := if n < 0 then .error .panic else .ok (shr32 x n.toNat)
+def shl64I (x : UInt64) (n : Int) : Res UInt64 := if n < 0 then .error .panic else .ok (shl64 x n.toNat)
+def shr64I (x : UInt64) (n : Int) : Res UInt64 := if n < 0 then .error .panic else .ok (shr64 x n.toNat)
+
 end Goflow.Go
